@@ -34,23 +34,28 @@ def make_bundle(pairs, data_tamper, rng, *, cipher=None, mac=None, kdf=None, cfg
     data_key = bytes(rng.randrange(256) for _ in range(E.KEYLEN[data_cipher]))
     cfg = config_text(cfg_len if cfg_len is not None else rng.choice([4, 8, 15, 16, 17, 31, 32, 33, 100, 1000]), rng)
     ptexts = []
+    # every pair may use its own MAC algorithm; encryption.data is authenticated with the algorithm of the pair that unlocks
+    pair_macs = [mac if (k == 0 or rng.random() < 0.4) else rng.choice(list(E.MACS)) for k in range(len(pairs))]
+    good = [k for k, p in enumerate(pairs) if p["match"] and p["tamper"] == "none"]
+    data_mac = pair_macs[good[0]] if good else mac
     for k, p in enumerate(pairs):
         phrase = PASS if p["match"] else f"other-{k}"
+        mac_k = pair_macs[k]
 
-        def tam(b, site=p["tamper"]):
+        def tam(b, site=p["tamper"], mac_k=mac_k):
             if site == "iv":
                 b[rng.randrange(16)] ^= 1 << rng.randrange(8)
             elif site == "ct":
-                b[rng.randrange(16, len(b) - E.MACS[mac][1])] ^= 1 << rng.randrange(8)
+                b[rng.randrange(16, len(b) - E.MACS[mac_k][1])] ^= 1 << rng.randrange(8)
             elif site == "mac":
-                b[len(b) - 1 - rng.randrange(E.MACS[mac][1])] ^= 1 << rng.randrange(8)
+                b[len(b) - 1 - rng.randrange(E.MACS[mac_k][1])] ^= 1 << rng.randrange(8)
 
-        ptexts.append(E.pair_text(phrase, data_key, cipher=cipher, mac=mac, kdf=kdf, rounds=rng.choice([1, 2, 1000, 10000]),
+        ptexts.append(E.pair_text(phrase, data_key, cipher=cipher, mac=mac_k, kdf=kdf, rounds=rng.choice([1, 2, 1000, 10000]), escape_inner=rng.random() < 0.5,
                                   salt=bytes(rng.randrange(256) for _ in range(rng.choice([8, 16, 32]))),
                                   iv=bytes(rng.randrange(256) for _ in range(16)), data_cipher=data_cipher,
                                   tamper=tam if p["tamper"] != "none" else None))
-    db = bytearray(E.blob(data_key, cfg.encode(), mac, bytes(rng.randrange(256) for _ in range(16))))
-    n = E.MACS[mac][1]
+    db = bytearray(E.blob(data_key, cfg.encode(), data_mac, bytes(rng.randrange(256) for _ in range(16))))
+    n = E.MACS[data_mac][1]
     if data_tamper == "iv":
         db[rng.randrange(16)] ^= 1 << rng.randrange(8)
     elif data_tamper == "ct-first":
